@@ -503,12 +503,19 @@ def runLifo (s : State) (t : Nat) : Nat → State
     | some s' => runLifo s' t k
     | none => s
 
-/-- "open all, then drain in `order`": every stream runs up to the return of its `Decrypt`, in
-index order; then the goroutines run to their end in the given order -/
+/-- "open all, then drain in `order`" as it runs under GOMAXPROCS=1 with readers and callbacks
+that never block: every stream runs up to the return of its `Decrypt`, in index order, the
+goroutines only queued; when the caller blocks in its first read, the goroutines run — the one
+created last first (the scheduler's `runnext` slot), then the others in creation order —, each up
+to the write of its segment into the pipe nobody reads yet, i.e. to just before its `Put`; the
+drains then let them finish (`Put`) in the given order. -/
 def openAllThenDrain (sur : RetKind) (ret : HeaderRet) (docs : List (Nat × List Byte)) (order : List Nat) : State :=
+  let n := docs.length
   let s0 := init (openProgs sur ret docs)
-  let s1 := (List.range docs.length).foldl (fun s t => runLifo s t (openLen ret (docs.getD t (0, [])).1 (docs.getD t (0, [])).2)) s0
-  order.foldl (fun s t => runLifo s t ((openProgs sur ret docs t).length + 1)) s1
+  let s1 := (List.range n).foldl (fun s t => runLifo s t (openLen ret (docs.getD t (0, [])).1 (docs.getD t (0, [])).2)) s0
+  let start := if n = 0 then [] else (n - 1) :: List.range (n - 1)
+  let s2 := start.foldl (fun s t => runLifo s t ((s.thr t).prog.length - 1)) s1
+  order.foldl (fun s t => runLifo s t 2) s2
 
 /-! ## `byteslicepool` -/
 
